@@ -554,11 +554,12 @@ class MatrixOfCellIdentifiersExpressionToken(RecursiveCompositeBaseToken):
     _TOKEN_SETS = [[MatrixOfCellIdentifiersToken, AmpersandToken, CLS], [MatrixOfCellIdentifiersToken]]
 
     @property
-    def operands(self) -> tuple[MatrixOfCellIdentifiersToken, MatrixOfCellIdentifiersToken]:
+    def operands(self) -> tuple[MatrixOfCellIdentifiersToken, ...]:
+        # every area of A1:A3&B1:B3&C1:C3, from left to right (one area when there is no &)
         if len(self.value) == 1:
-            return self.value[0]
+            return (self.value[0],)
 
-        return self.value[0], self.value[2].operands
+        return (self.value[0], *self.value[2].operands)
 
 
 class MatchControlConstructionToken(CompositeBaseToken):
